@@ -1,1 +1,10 @@
-
+import SphericalVerif.Props.C08
+import SphericalVerif.Props.HKernel
+#print axioms C08.cpowers_entry_indep
+#print axioms C08.objd_cfg_indep
+#print axioms C08.objD_cfg_indep
+#print axioms C08.objY_cfg_indep
+#print axioms C08.objEvalH_cfg_indep
+#print axioms C08.objRotH_cfg_indep
+#print axioms HKernel.runH_pure
+#print axioms HKernel.runH_size_indep
